@@ -695,6 +695,27 @@ fn c19(thorough: bool) -> Report {
             if let Some(g) = it.next() { r.fail(format!("traversing {v:?}: yields {g:?} after its {} values (extra call {extra})", want.len())); return r; }
         }
     }
+    // ---- lookup by kind: every sequence of group kinds up to length 5 (thorough 6) over 4 kinds; exactly the groups of the kind,
+    // by identity, in message order
+    let all_tags = [DelimiterTag::OperationAttributes, DelimiterTag::JobAttributes, DelimiterTag::PrinterAttributes, DelimiterTag::UnsupportedAttributes];
+    let maxlen = if thorough { 6 } else { 5 };
+    for len in 0..=maxlen {
+        for code in 0..(4usize.pow(len as u32)) {
+            let mut a = IppAttributes::new();
+            let mut c = code;
+            for _ in 0..len { a.groups_mut().push(IppAttributeGroup::new(all_tags[c % 4])); c /= 4; }
+            r.case(format!("kinds{len}:{code}").as_bytes());
+            for t in all_tags {
+                let got: Vec<*const IppAttributeGroup> = a.groups_of(t).map(|g| g as *const _).collect();
+                let want: Vec<*const IppAttributeGroup> = a.groups().iter().filter(|g| g.tag() == t).map(|g| g as *const _).collect();
+                if got != want {
+                    r.fail(format!("groups_of({t:?}) on kinds {:?}: {} group(s) returned, {} expected, or in another order",
+                                   a.groups().iter().map(|g| g.tag() as u8).collect::<Vec<_>>(), got.len(), want.len()));
+                    return r;
+                }
+            }
+        }
+    }
     // ---- additions onto a message with repeated / empty groups (parser-shaped): first group of the kind, else a new group at the end
     let bases: Vec<Vec<(u8, Vec<(String, RVal)>)>> = vec![
         vec![(1, vec![]), (4, vec![("a".into(), RVal::Int(0x21, 1))]), (2, vec![]), (4, vec![("a".into(), RVal::Int(0x21, 2)), ("b".into(), RVal::Int(0x21, 3))])],
